@@ -96,6 +96,89 @@ func (p *vC09Pool) rr(k vC09Sym) *dns.DNSKEY {
 
 func (p *vC09Pool) tag(k vC09Sym) uint16 { return dnssec.KeyTag(p.rr(k)) }
 
+// role names make recorded histories independent of the seed: n<i> = i-th ordinary key, c<j>a/b = the
+// two keys of the j-th pair with equal tags, r<j>a/b = pair where tag(b) = tag(revoked form of a),
+// y<j> = j-th key whose revoked form has tag+129
+func (p *vC09Pool) role(k vC09Sym) string {
+	for i, m := range p.normal {
+		if m == k.mat {
+			return fmt.Sprintf("n%d/%d", i, k.flags)
+		}
+	}
+	for j, pr := range p.collide {
+		if pr[0] == k.mat {
+			return fmt.Sprintf("c%da/%d", j, k.flags)
+		}
+		if pr[1] == k.mat {
+			return fmt.Sprintf("c%db/%d", j, k.flags)
+		}
+	}
+	for j, pr := range p.revcol {
+		if pr[0] == k.mat {
+			return fmt.Sprintf("r%da/%d", j, k.flags)
+		}
+		if pr[1] == k.mat {
+			return fmt.Sprintf("r%db/%d", j, k.flags)
+		}
+	}
+	for j, m := range p.carry {
+		if m == k.mat {
+			return fmt.Sprintf("y%d/%d", j, k.flags)
+		}
+	}
+	return fmt.Sprintf("m%d/%d", k.mat, k.flags)
+}
+
+func (p *vC09Pool) unrole(s string) (vC09Sym, bool) {
+	parts := strings.SplitN(s, "/", 2)
+	if len(parts) != 2 || len(parts[0]) < 2 {
+		return vC09Sym{}, false
+	}
+	fl, err := strconv.Atoi(parts[1])
+	if err != nil {
+		return vC09Sym{}, false
+	}
+	r := parts[0]
+	side := byte(0)
+	num := r[1:]
+	if r[0] == 'c' || r[0] == 'r' {
+		side = r[len(r)-1]
+		num = r[1 : len(r)-1]
+	}
+	i, err := strconv.Atoi(num)
+	if err != nil || i < 0 {
+		return vC09Sym{}, false
+	}
+	pick := func(pr [][2]int) (vC09Sym, bool) {
+		if i >= len(pr) {
+			return vC09Sym{}, false
+		}
+		if side == 'a' {
+			return vC09Sym{pr[i][0], uint16(fl)}, true
+		}
+		return vC09Sym{pr[i][1], uint16(fl)}, true
+	}
+	switch r[0] {
+	case 'n':
+		if i < len(p.normal) {
+			return vC09Sym{p.normal[i], uint16(fl)}, true
+		}
+	case 'c':
+		return pick(p.collide)
+	case 'r':
+		return pick(p.revcol)
+	case 'y':
+		if i < len(p.carry) {
+			return vC09Sym{p.carry[i], uint16(fl)}, true
+		}
+	case 'm':
+		if i < len(p.keys) {
+			return vC09Sym{i, uint16(fl)}, true
+		}
+	}
+	return vC09Sym{}, false
+}
+
 func vC09NewPool(seed int64, n int) *vC09Pool {
 	r := rand.New(rand.NewSource(seed*7919 + 9))
 	p := &vC09Pool{byPub: map[string]int{}}
@@ -209,7 +292,7 @@ func vC09StartServer(t *testing.T) *vC09Server {
 		break
 	}
 	if err != nil {
-		t.Skipf("cannot bind loopback: %v", err)
+		t.Fatalf("cannot bind loopback: %v", err)
 	}
 	s.addr = pc.LocalAddr().String()
 	go func() { _ = (&dns.Server{PacketConn: pc, Handler: s}).ActivateAndServe() }()
@@ -219,22 +302,86 @@ func vC09StartServer(t *testing.T) *vC09Server {
 
 // --------------------------------------------------------------- inotify
 
-type vC09Watch struct{ fd int }
+// One inotify instance for the whole run (instances are a scarce per-user resource); a watch per
+// history directory. When inotify cannot be had at all the order of the replacements is read from the
+// inode change times instead (rename updates ctime; the two renames are separated by fsyncs).
+type vC09Watch struct {
+	fd  int // -1: fallback mode
+	wd  int
+	dir string
+	ino map[string]uint64
+}
+
+var vC09InotifyFd = -2
+
+func vC09Inotify() int {
+	if vC09InotifyFd != -2 {
+		return vC09InotifyFd
+	}
+	vC09InotifyFd = -1
+	if os.Getenv("VERIF_C09_NOINOTIFY") != "" {
+		return -1
+	}
+	for try := 0; try < 10; try++ {
+		fd, err := syscall.InotifyInit1(syscall.IN_NONBLOCK | syscall.IN_CLOEXEC)
+		if err == nil {
+			vC09InotifyFd = fd
+			break
+		}
+		time.Sleep(300 * time.Millisecond)
+	}
+	return vC09InotifyFd
+}
 
 func vC09NewWatch(dir string) (*vC09Watch, error) {
-	fd, err := syscall.InotifyInit1(syscall.IN_NONBLOCK | syscall.IN_CLOEXEC)
-	if err != nil {
-		return nil, err
+	w := &vC09Watch{fd: vC09Inotify(), dir: dir, ino: map[string]uint64{}}
+	if w.fd >= 0 {
+		wd, err := syscall.InotifyAddWatch(w.fd, dir, syscall.IN_MOVED_TO)
+		if err != nil {
+			w.fd = -1
+		} else {
+			w.wd = wd
+		}
 	}
-	if _, err := syscall.InotifyAddWatch(fd, dir, syscall.IN_MOVED_TO); err != nil {
-		_ = syscall.Close(fd)
-		return nil, err
+	return w, nil
+}
+
+func (w *vC09Watch) snapshot() {
+	for _, n := range []string{tombstoneFile, stateFile} {
+		var st syscall.Stat_t
+		if syscall.Lstat(filepath.Join(w.dir, n), &st) == nil {
+			w.ino[n] = st.Ino
+		} else {
+			delete(w.ino, n)
+		}
 	}
-	return &vC09Watch{fd: fd}, nil
 }
 
 // drain returns the names moved into the directory since the last call, in order
 func (w *vC09Watch) drain() []string {
+	if w.fd < 0 {
+		type ev struct {
+			name string
+			at   int64
+		}
+		var evs []ev
+		for _, n := range []string{tombstoneFile, stateFile} {
+			var st syscall.Stat_t
+			if syscall.Lstat(filepath.Join(w.dir, n), &st) != nil || st.Mode&syscall.S_IFMT != syscall.S_IFREG {
+				continue
+			}
+			if old, ok := w.ino[n]; !ok || old != st.Ino {
+				evs = append(evs, ev{n, st.Ctim.Sec*1e9 + st.Ctim.Nsec})
+			}
+		}
+		sort.Slice(evs, func(i, j int) bool { return evs[i].at < evs[j].at })
+		var names []string
+		for _, e := range evs {
+			names = append(names, e.name)
+		}
+		w.snapshot()
+		return names
+	}
 	var names []string
 	buf := make([]byte, 64*1024)
 	for {
@@ -247,7 +394,7 @@ func (w *vC09Watch) drain() []string {
 			ev := (*syscall.InotifyEvent)(unsafe.Pointer(&buf[off]))
 			nameLen := int(ev.Len)
 			name := string(bytes.TrimRight(buf[off+syscall.SizeofInotifyEvent:off+syscall.SizeofInotifyEvent+nameLen], "\x00"))
-			if ev.Mask&syscall.IN_MOVED_TO != 0 {
+			if ev.Mask&syscall.IN_MOVED_TO != 0 && int(ev.Wd) == w.wd {
 				names = append(names, name)
 			}
 			off += syscall.SizeofInotifyEvent + nameLen
@@ -256,15 +403,19 @@ func (w *vC09Watch) drain() []string {
 	return names
 }
 
-func (w *vC09Watch) close() { _ = syscall.Close(w.fd) }
+func (w *vC09Watch) close() {
+	if w.fd >= 0 {
+		_, _ = syscall.InotifyRmWatch(w.fd, uint32(w.wd))
+	}
+}
 
 // --------------------------------------------------------------- history
 
 type vC09Sig struct {
 	signer vC09Sym // the private key of signer.mat signs; key tag field = tag(signer) unless tagSet
 	tagSet bool
-	tag    uint16
-	bad    bool // signature bytes corrupted
+	tagKey vC09Sym // when tagSet: the key tag field is the tag of THIS key
+	bad    bool    // signature bytes corrupted
 }
 
 type vC09Fetch struct {
@@ -325,6 +476,8 @@ type vC09H struct {
 	removed                  []vC09Sym
 	initCfg                  []vC09Sym
 	idx                      int
+	budget                   int       // > 0: request-tree work budget enforced, this many signature checks
+	script                   []any     // the history as replayable operations (roles, not pool indices)
 	twins                    int       // colliding-tag pairs still to hand out
 	twinQ                    []vC09Sym // second halves of handed-out pairs
 	sticky                   vC09Faults
@@ -561,6 +714,11 @@ func (h *vC09H) newResolver(cfg []vC09Sym, tr int, sr bool) {
 	c.Timeout.Duration = 150 * time.Millisecond
 	c.Directory = h.dir
 	c.IPv6Access = false
+	if h.budget > 0 {
+		c.RecursionFirewall.Mode = config.RecursionFirewallModeEnforce
+		c.RecursionFirewall.MaxSignatureChecks = uint32(h.budget)
+		c.RecursionFirewall.MaxRRsetSignatureChecks = uint32(h.budget)
+	}
 	tA := time.Now()
 	h.r = NewResolver(c)
 	h.tNew += time.Since(tA)
@@ -617,7 +775,16 @@ func (h *vC09H) newResolver(cfg []vC09Sym, tr int, sr bool) {
 	}
 }
 
+func (h *vC09H) roles(l []vC09Sym) []string {
+	out := []string{}
+	for _, k := range l {
+		out = append(out, h.pool.role(k))
+	}
+	return out
+}
+
 func (h *vC09H) start(cfg []vC09Sym) {
+	h.script = append(h.script, map[string]any{"op": "start", "cfg": h.roles(cfg), "budget": h.budget})
 	h.newResolver(cfg, 0, false)
 	h.initCfg = append([]vC09Sym(nil), cfg...)
 	h.init = h.cur.coq()
@@ -631,6 +798,11 @@ func (h *vC09H) restart(cfg []vC09Sym) {
 	} else if x == 2 {
 		sr = true // the state file cannot be read while the process starts
 	}
+	h.restartWith(cfg, tr, sr)
+}
+
+func (h *vC09H) restartWith(cfg []vC09Sym, tr int, sr bool) {
+	h.script = append(h.script, map[string]any{"op": "restart", "cfg": h.roles(cfg), "tr": tr, "sr": sr})
 	h.newResolver(cfg, tr, sr)
 	h.steps = append(h.steps, fmt.Sprintf("ORestart %s %d %s %s", vC09KeysCoq(cfg), tr, vC09B(sr), h.cur.coq()))
 	h.desc = append(h.desc, fmt.Sprintf("restart cfg=%s tombstone_read=%d state_read_fails=%v -> %s", vC09KeysCoq(cfg), tr, sr, h.cur.short()))
@@ -641,6 +813,7 @@ func (h *vC09H) advance(min int64) {
 	if min <= 0 {
 		return
 	}
+	h.script = append(h.script, map[string]any{"op": "advance", "min": min})
 	// never land an entry exactly on a hold-down boundary: the code compares real
 	// nanoseconds (boundary + a few ms counts as "after"), the cases carry minutes
 	for again := true; again; {
@@ -692,7 +865,8 @@ func (h *vC09H) buildAnswer(fe vC09Fetch) ([]dns.RR, string) {
 		h.used[s.signer] = true
 		tag := h.pool.tag(s.signer)
 		if s.tagSet {
-			tag = s.tag
+			h.used[s.tagKey] = true
+			tag = h.pool.tag(s.tagKey)
 		}
 		sig := &dns.RRSIG{
 			Hdr:         dns.RR_Header{Name: ".", Rrtype: dns.TypeRRSIG, Class: dns.ClassINET, Ttl: 3600},
@@ -728,6 +902,18 @@ var vC09Counters = []struct {
 
 // one complete AutoTA run with a scripted response and injected faults
 func (h *vC09H) run(fe vC09Fetch, fl vC09Faults) {
+	{
+		var sg []any
+		for _, g := range fe.sigs {
+			e := map[string]any{"by": h.pool.role(g.signer), "bad": g.bad}
+			if g.tagSet {
+				e["tag_of"] = h.pool.role(g.tagKey)
+			}
+			sg = append(sg, e)
+		}
+		h.script = append(h.script, map[string]any{"op": "run", "drop": fe.drop, "keys": h.roles(fe.keys), "sigs": sg,
+			"sread": fl.sread, "tread": fl.tread, "twrite": fl.twrite, "swrite": fl.swrite})
+	}
 	sp, tp := h.spath(), h.tpath()
 	h.preS, h.preSok = vC09ReadOpt(sp)
 	h.preT, h.preTok = vC09ReadOpt(tp)
@@ -790,6 +976,9 @@ func (h *vC09H) run(fe vC09Fetch, fl vC09Faults) {
 			_ = os.Mkdir(tp, 0o700)
 			_ = os.WriteFile(filepath.Join(tp, "x"), []byte("x"), 0o600)
 		}
+		if h.watch.fd < 0 {
+			h.watch.snapshot()
+		}
 	}
 	h.srv.mu.Unlock()
 	before := make([]int64, len(vC09Counters))
@@ -798,6 +987,9 @@ func (h *vC09H) run(fe vC09Fetch, fl vC09Faults) {
 	}
 	revBefore := taRevoked.Value()
 	h.watch.drain()
+	if h.watch.fd < 0 {
+		h.watch.snapshot()
+	}
 
 	tA := time.Now()
 	h.r.AutoTA()
@@ -841,6 +1033,9 @@ func (h *vC09H) run(fe vC09Fetch, fl vC09Faults) {
 	if out == 1 && !fe.drop {
 		h.bad = "loopback query failed although the server was answering"
 	}
+	if out == 4 && h.budget == 0 {
+		h.bad = "work-budget error without an enforced budget"
+	}
 	if fe.drop && asked == 0 && fl.tread == 0 && !fl.sread {
 		h.bad = "no query reached the scripted root"
 	}
@@ -879,6 +1074,7 @@ func (h *vC09H) rollback(k int, cfg []vC09Sym) {
 	if k > len(h.renames) {
 		k = len(h.renames)
 	}
+	h.script = append(h.script, map[string]any{"op": "rollback", "k": k, "cfg": h.roles(cfg)})
 	s, sok, t, tok := h.preS, h.preSok, h.preT, h.preTok
 	for _, f := range h.renames[:k] {
 		if f == 0 {
@@ -1121,7 +1317,7 @@ func (h *vC09H) pickFetch(next *int) vC09Fetch {
 			i, j := r.Intn(len(fe.sigs)), r.Intn(len(fe.sigs))
 			if i != j {
 				fe.sigs[i].tagSet = true
-				fe.sigs[i].tag = h.pool.tag(fe.sigs[j].signer)
+				fe.sigs[i].tagKey = fe.sigs[j].signer
 			}
 		}
 	case x < 68: // only some of the keys sign
@@ -1160,7 +1356,7 @@ func (h *vC09H) pickFetch(next *int) vC09Fetch {
 	case x < 91: // key tag field of the signatures belongs to the other form of the key
 		for i := range fe.sigs {
 			fe.sigs[i].tagSet = true
-			fe.sigs[i].tag = h.pool.tag(vC09Sym{fe.sigs[i].signer.mat, fe.sigs[i].signer.flags ^ DNSKEYFlagRevoke})
+			fe.sigs[i].tagKey = vC09Sym{fe.sigs[i].signer.mat, fe.sigs[i].signer.flags ^ DNSKEYFlagRevoke}
 		}
 	case x < 94: // empty answer
 		fe.keys, fe.sigs = nil, nil
@@ -1222,6 +1418,9 @@ func (h *vC09H) scenario(kind string) {
 	case "random", "rollover", "revfault", "missing", "pendabort", "forged":
 		if r.Intn(4) == 0 {
 			h.twins = 1 + r.Intn(2)
+		}
+		if r.Intn(6) == 0 {
+			h.budget = 1 + r.Intn(3) // the request-tree work budget is enforced and tiny
 		}
 	}
 	switch kind {
@@ -1382,7 +1581,7 @@ func (h *vC09H) scenario(kind string) {
 				fe.keys = []vC09Sym{vC09Rev(a), e}
 				fe.sigs = []vC09Sig{{signer: vC09Rev(a)}, {signer: e}}
 			default:
-				fe.sigs = []vC09Sig{{signer: a, tagSet: true, tag: h.pool.tag(e)}}
+				fe.sigs = []vC09Sig{{signer: a, tagSet: true, tagKey: e}}
 			}
 			h.run(fe, h.pickFaults())
 			h.maybeCrash(&next)
@@ -1568,6 +1767,21 @@ func (h *vC09H) scenario(kind string) {
 		}
 		h.run(h.honest(), vC09Faults{})
 
+	case "dualflags":
+		// one public key configured and published under two flags values (257 and 1): two entries
+		// of one material; the 257 form is revoked
+		a, b := h.fresh(&next), h.fresh(&next)
+		a1 := vC09Sym{a.mat, 1}
+		cfg := []vC09Sym{a, a1, b}
+		h.pub = []vC09Sym{a, a1, b}
+		h.start(cfg)
+		h.run(h.honest(), vC09Faults{})
+		h.revoke(a)
+		h.run(h.honest(), h.pickFaults())
+		h.run(h.honest(), vC09Faults{})
+		h.restart(cfg)
+		h.run(h.honest(), vC09Faults{})
+
 	case "twinrev":
 		// a new KSK whose key tag is already in use (by the anchor being revoked, or by its revoked
 		// form) is published before, during or after the revocation, under lasting storage faults
@@ -1688,6 +1902,84 @@ func (h *vC09H) scenario(kind string) {
 	}
 }
 
+// replay of a recorded history (corpus): the operations with keys named by role
+func (h *vC09H) play(ops []map[string]any) bool {
+	keys := func(v any) ([]vC09Sym, bool) {
+		out := []vC09Sym{}
+		l, _ := v.([]any)
+		for _, x := range l {
+			str, _ := x.(string)
+			k, ok := h.pool.unrole(str)
+			if !ok {
+				return nil, false
+			}
+			out = append(out, k)
+		}
+		return out, true
+	}
+	num := func(v any) int {
+		f, _ := v.(float64)
+		return int(f)
+	}
+	bl := func(v any) bool {
+		b, _ := v.(bool)
+		return b
+	}
+	for _, op := range ops {
+		switch op["op"] {
+		case "start":
+			cfg, ok := keys(op["cfg"])
+			if !ok {
+				return false
+			}
+			h.budget = num(op["budget"])
+			h.start(cfg)
+		case "restart":
+			cfg, ok := keys(op["cfg"])
+			if !ok {
+				return false
+			}
+			h.restartWith(cfg, num(op["tr"]), bl(op["sr"]))
+		case "advance":
+			h.advance(int64(num(op["min"])))
+		case "rollback":
+			cfg, ok := keys(op["cfg"])
+			if !ok {
+				return false
+			}
+			h.rollback(num(op["k"]), cfg)
+		case "run":
+			ks, ok := keys(op["keys"])
+			if !ok {
+				return false
+			}
+			fe := vC09Fetch{drop: bl(op["drop"]), keys: ks}
+			sl, _ := op["sigs"].([]any)
+			for _, x := range sl {
+				m, _ := x.(map[string]any)
+				by, _ := m["by"].(string)
+				k, ok := h.pool.unrole(by)
+				if !ok {
+					return false
+				}
+				g := vC09Sig{signer: k, bad: bl(m["bad"])}
+				if to, ok := m["tag_of"].(string); ok {
+					tk, ok2 := h.pool.unrole(to)
+					if !ok2 {
+						return false
+					}
+					g.tagSet, g.tagKey = true, tk
+				}
+				fe.sigs = append(fe.sigs, g)
+			}
+			h.run(fe, vC09Faults{sread: bl(op["sread"]), tread: num(op["tread"]), twrite: bl(op["twrite"]), swrite: bl(op["swrite"])})
+		default:
+			return false
+		}
+	}
+	return true
+}
+
 var vC09Kinds = []struct {
 	kind   string
 	weight int
@@ -1711,6 +2003,7 @@ var vC09Kinds = []struct {
 	{"sreadloss", 4, "", "hist"},
 	{"cfgrev", 3, "", "hist"},
 	{"twinrev", 8, "", "hist"},
+	{"dualflags", 2, "one-public-key-under-two-flags-values-survives-its-revocation-for-one-run", "split"},
 }
 
 func TestVerifC09AutoTA(t *testing.T) {
@@ -1736,10 +2029,17 @@ func TestVerifC09AutoTA(t *testing.T) {
 	for _, k := range vC09Kinds {
 		total += k.weight
 	}
+	emitted := 0
 	emit := func(rec map[string]any) {
 		b, _ := json.Marshal(rec)
 		_, _ = f.Write(append(b, '\n'))
+		emitted++
 	}
+	defer func() {
+		if emitted == 0 && !t.Skipped() {
+			t.Errorf("the driver produced no case at all")
+		}
+	}()
 	replayIdx := -1
 	if rp := os.Getenv("VERIF_REPLAY"); rp != "" {
 		if b, err := os.ReadFile(rp); err == nil {
@@ -1753,6 +2053,71 @@ func TestVerifC09AutoTA(t *testing.T) {
 			if json.Unmarshal(b, &rec) == nil {
 				replayIdx = rec.Case.Desc.Index
 			}
+		}
+	}
+	finish := func(h *vC09H, w *vC09Watch, dir, kind, mode, fkey string, idx int) {
+		w.close()
+		_ = os.RemoveAll(dir)
+		vC09Stats.tRun += h.tRun
+		vC09Stats.tNew += h.tNew
+		vC09Stats.nRun += h.nRun
+		vC09Stats.nNew += h.nNew
+		vC09Stats.nDrop += h.nDrop
+		if time.Since(h.t0) > 20*time.Second && h.bad == "" {
+			h.bad = "history took too long in real time for minute-granular clocks"
+		}
+		body := fmt.Sprintf("%s %s %s [%s]", h.tbl(), vC09KeysCoq(vC09InitCfg(h)), h.init, strings.Join(h.steps, ";\n "))
+		desc := map[string]any{"index": idx, "seed": seed, "kind": kind, "steps": h.desc, "script": h.script}
+		nontrivial := len(h.steps) >= 3
+		if h.bad != "" {
+			emit(map[string]any{"k": kind, "inconclusive": true, "desc": map[string]any{"index": idx, "why": h.bad}})
+			return
+		}
+		switch mode {
+		case "hist":
+			emit(map[string]any{"k": kind, "coq": "CHist " + body, "nontrivial": nontrivial, "desc": desc})
+		case "check":
+			emit(map[string]any{"k": kind, "coq": "CCheck " + body, "nontrivial": nontrivial, "desc": desc})
+		case "split":
+			emit(map[string]any{"k": kind + "-model", "coq": "CCheck " + body, "nontrivial": nontrivial, "desc": desc})
+			emit(map[string]any{"k": kind + "-spec", "coq": "CSpec " + body, "nontrivial": nontrivial, "desc": desc, "fkey": fkey})
+		}
+		for _, wl := range h.windows {
+			_, _ = f.WriteString(wl + "\n")
+		}
+	}
+	// corpus first: recorded minimal histories of every finding, mutation and seeded change
+	if cdir := os.Getenv("VERIF_CORPUS"); cdir != "" && replayIdx < 0 {
+		files, _ := filepath.Glob(filepath.Join(cdir, "*.json"))
+		sort.Strings(files)
+		for ci, fn := range files {
+			b, err := os.ReadFile(fn)
+			if err != nil {
+				continue
+			}
+			var ent struct {
+				Name   string           `json:"name"`
+				Mode   string           `json:"mode"`
+				Fkey   string           `json:"fkey"`
+				Script []map[string]any `json:"script"`
+			}
+			if json.Unmarshal(b, &ent) != nil || len(ent.Script) == 0 {
+				t.Fatalf("corpus entry %s does not parse", fn)
+			}
+			if ent.Mode == "" {
+				ent.Mode = "hist"
+			}
+			dir := filepath.Join(scratch, fmt.Sprintf("c%d", ci))
+			if err := os.MkdirAll(dir, 0o700); err != nil {
+				t.Fatal(err)
+			}
+			w, _ := vC09NewWatch(dir)
+			hr := rand.New(rand.NewSource(seed*31 + int64(ci)))
+			h := &vC09H{t: t, pool: pool, rng: hr, dir: dir, srv: srv, watch: w, used: map[vC09Sym]bool{}, windowSeen: map[string]bool{}, t0: time.Now(), idx: -1 - ci}
+			if !h.play(ent.Script) {
+				t.Fatalf("corpus entry %s names a key role this pool does not have", fn)
+			}
+			finish(h, w, dir, "corpus-"+ent.Name, ent.Mode, ent.Fkey, -1-ci)
 		}
 	}
 	for idx := 0; idx < n; idx++ {
@@ -1779,41 +2144,10 @@ func TestVerifC09AutoTA(t *testing.T) {
 		if err := os.MkdirAll(dir, 0o700); err != nil {
 			t.Fatal(err)
 		}
-		w, err := vC09NewWatch(dir)
-		if err != nil {
-			t.Skipf("inotify unavailable: %v", err)
-		}
+		w, _ := vC09NewWatch(dir)
 		h := &vC09H{t: t, pool: pool, rng: hr, dir: dir, srv: srv, watch: w, used: map[vC09Sym]bool{}, windowSeen: map[string]bool{}, t0: time.Now(), idx: idx}
 		h.scenario(kd.kind)
-		w.close()
-		vC09Stats.tRun += h.tRun
-		vC09Stats.tNew += h.tNew
-		vC09Stats.nRun += h.nRun
-		vC09Stats.nNew += h.nNew
-		vC09Stats.nDrop += h.nDrop
-		_ = os.RemoveAll(dir)
-		if time.Since(h.t0) > 20*time.Second && h.bad == "" {
-			h.bad = "history took too long in real time for minute-granular clocks"
-		}
-		body := fmt.Sprintf("%s %s %s [%s]", h.tbl(), vC09KeysCoq(vC09InitCfg(h)), h.init, strings.Join(h.steps, ";\n "))
-		desc := map[string]any{"index": idx, "seed": seed, "kind": kd.kind, "steps": h.desc}
-		nontrivial := len(h.steps) >= 3
-		if h.bad != "" {
-			emit(map[string]any{"k": kd.kind, "inconclusive": true, "desc": map[string]any{"index": idx, "why": h.bad}})
-			continue
-		}
-		switch kd.mode {
-		case "hist":
-			emit(map[string]any{"k": kd.kind, "coq": "CHist " + body, "nontrivial": nontrivial, "desc": desc})
-		case "check":
-			emit(map[string]any{"k": kd.kind, "coq": "CCheck " + body, "nontrivial": nontrivial, "desc": desc})
-		case "split":
-			emit(map[string]any{"k": kd.kind + "-model", "coq": "CCheck " + body, "nontrivial": nontrivial, "desc": desc})
-			emit(map[string]any{"k": kd.kind + "-spec", "coq": "CSpec " + body, "nontrivial": nontrivial, "desc": desc, "fkey": kd.fkey})
-		}
-		for _, wl := range h.windows {
-			_, _ = f.WriteString(wl + "\n")
-		}
+		finish(h, w, dir, kd.kind, kd.mode, kd.fkey, idx)
 	}
 	t.Logf("C09 driver: %d AutoTA runs in %v (%d dropped fetches), %d NewResolver in %v", vC09Stats.nRun, vC09Stats.tRun, vC09Stats.nDrop, vC09Stats.nNew, vC09Stats.tNew)
 }
